@@ -471,6 +471,33 @@ Proof.
 Qed.
 End Out.
 
+(* FOR Max >= 3 NICE ALWAYS FINDS A LEVEL (this is where "Max >= 3" enters the property): at a
+   level whose spacing exceeds the width of the domain the rounded-out count is 2 or 3.  With the
+   default level limits the top level is 1000, spacing Base^500. *)
+Theorem lin_nice_finds_level base eb mn mx o g lo hi :
+  lin_ebase base = Some eb -> mn < mx -> level_bounds o = Some (lo, hi) -> (3 <= o_max o)%Z ->
+  mx - mn < lin_spacing base eb hi ->
+  exists l, find_level o (lin_count base eb mn mx true) g = FL_ok l.
+Proof.
+  intros He Hord Hb HM Hw.
+  destruct (find_level o (lin_count base eb mn mx true) g) as [l| |] eqn:F; [exists l; reflexivity | | exfalso; exact (find_level_no_fuel o _ g F)].
+  exfalso. apply (find_level_fails_iff o _ g) in F.
+  2:{ intros lo' hi' _. now apply (lin_count_out_nonincreasing base eb He). }
+  destruct F as [A|[A|(lo' & hi' & E & A)]]; [lia | congruence |].
+  rewrite Hb in E. injection E as <- <-.
+  pose proof (level_bounds_ordered o lo hi Hb) as Hlh. specialize (A hi ltac:(lia)).
+  unfold lin_count in A. rewrite first_last_out in A.
+  assert (P : 0 < lin_spacing base eb hi) by (apply lin_spacing_pos; now destruct (lin_ebase_ge base eb He)).
+  destruct (slack_small mn mx Hord) as [S0 S1].
+  set (sl := (mx - mn) * slack_factor) in *. set (sp := lin_spacing base eb hi) in *.
+  destruct (floor_mul_spec (mn + sl) sp P) as [_ F2].
+  assert (C : (Qceiling ((mx - sl) / sp) <= Qfloor ((mn + sl) / sp) + 2)%Z).
+  { apply ceil_le_of; [exact P|]. rewrite !inject_Z_plus. change (inject_Z 2) with 2.
+    assert (E : (inject_Z (Qfloor ((mn + sl) / sp)) + 2) * sp == (inject_Z (Qfloor ((mn + sl) / sp)) + 1) * sp + sp) by ring.
+    rewrite E. lra. }
+  lia.
+Qed.
+
 (* the same, stated on what Nice and Ticks return *)
 Theorem lin_nice_ends_are_first_last_major base eb mn mx o g g3 l a b major minor :
   lin_ebase base = Some eb -> mn < mx -> (o_max o * eb <= 10 ^ 9)%Z ->
